@@ -26,12 +26,13 @@ PID = "C12"
 RULE = ("cases: server kind (WSGI Server / BareServer) x tymeout in {0.25 .. 8, default} x tock in {1/32 .. 1} (dyadic, at most 128 "
         "tocks per tymeout) x 1-3 connections with schedules silent / dribble (1-6 pieces at generated gaps, some shorter and "
         "some longer than the tymeout) / persistent request then idle / non-persistent request whose answer would-blocks for ever, connected at generated cycles, run for 3 tymeouts past the "
-        "last scheduled activity; non-trivial = some connection has earlier traffic bursts (>= 2 pieces) and then a gap >= tymeout; "
+        "last scheduled activity, optionally with the server wound to another tymist (tyme 0, 5 or 1000) at a generated cycle; non-trivial = some connection has earlier traffic bursts (>= 2 pieces) and then a gap >= tymeout; "
         "distinct = canonical hash")
 ASSUMPTIONS = [
     "virtual time only: the server is wound to a harness Tymist that advances one tock per service call",
     "traffic offered to a service call counts as seen by that call; the server checks expiry before it reads, so a connection "
     "whose deadline passes in the very call that would read new bytes may be closed or kept - both are accepted",
+    "after a rewind to another tymist both readings of 'idle time' are accepted: carried over (earliest close) or started afresh (latest close)",
     "a connection is persistent once the server has parsed a complete keep-alive request on it (the side condition of the statement)",
 ]
 
@@ -73,7 +74,20 @@ def run_case(case):
         last = max([last, at] + list(ev))
     horizon = last + int(3 * Teff / tock) + 4
     bursts_then_gap = False
+    rewind = case.get("rewind")
     for cyc in range(horizon):
+        if rewind and cyc == rewind["at"]:
+            # the server is wound to another tymist while connections are open.  How long such a connection has been idle
+            # "in virtual time" is then open to two readings, and both are accepted: the idle time so far carries over
+            # (earliest close: what was left on the old clock), or the rewind counts as a fresh start (latest close)
+            from hio.base import tyming as _tyming
+            told = rig.tymist.tyme
+            rig.tymist = _tyming.Tymist(tyme=rewind["tyme"], tock=tock)
+            rig.server.wind(rig.tymist.tymen()) if hasattr(rig.server, "wind") else rig.servant.wind(rig.tymist.tymen())
+            for p in plans:
+                if p["D"] is not None:
+                    p["Dearly"] = rig.tymist.tyme + max(0.0, p["D"] - told)
+                    p["D"] = rig.tymist.tyme + Teff
         t = rig.tymist.tyme
         fresh = {}
         for i, p in enumerate(plans):
@@ -112,7 +126,7 @@ def run_case(case):
                 if p["persist"]:
                     r.fail("C12/persistent-closed", "connection %d answered a keep-alive request at an earlier cycle and was closed "
                            "at tyme %r (tymeout %r)" % (i, t, Teff))
-                elif D is not None and t < D and not fresh.get(i):
+                elif D is not None and t < p.get("Dearly", D) and not fresh.get(i):
                     r.fail("C12/closed-early", "connection %d (%s) closed at tyme %r, last traffic + tymeout = %r" % (
                         i, p["kind"], t, D))
                 continue
@@ -126,6 +140,7 @@ def run_case(case):
                 if p["sent"] >= 2 and D is not None and False:
                     pass
                 p["D"] = t + Teff
+                p.pop("Dearly", None)
         rig.tymist.tick()
         if r.failures:
             break
@@ -134,6 +149,8 @@ def run_case(case):
             bursts_then_gap = True          # the run always ends with a gap of 3 tymeouts after the last piece
     r.nontrivial = bursts_then_gap
     r.labels.append("bare" if case["bare"] else "wsgi")
+    if rewind:
+        r.labels.append("rewound-to-another-tymist")
     for c in conns:
         r.labels.append("conn:" + c["kind"])
     if any(c["kind"] == "dribble" and any(g * tock >= Teff for g, _n in c["pieces"][1:]) for c in conns):
@@ -142,15 +159,17 @@ def run_case(case):
 
 
 def _strategy():
-    def build(tock_i, ratio, bare, default_t, conns):
+    def build(tock_i, ratio, bare, default_t, conns, rewind):
         tock = 1.0 / (1 << tock_i)            # 1, 1/2, ... 1/32
         T = None if default_t else tock * ratio
-        return {"tock": tock, "tymeout": T, "bare": bare, "conns": conns}
+        return {"tock": tock, "tymeout": T, "bare": bare, "conns": conns, "rewind": rewind}
     piece = st.tuples(st.integers(1, 40), st.integers(1, 5)).map(list)
     conn = st.fixed_dictionaries({"kind": st.sampled_from(["silent", "dribble", "dribble", "persistent", "stalled"]),
                                   "at": st.integers(0, 6), "pieces": st.lists(piece, min_size=1, max_size=6)})
     return st.builds(build, st.integers(0, 5), st.sampled_from([1, 2, 3, 4, 8, 16, 32, 64]), st.booleans(),
-                     st.sampled_from([False, False, False, False, True]), st.lists(conn, min_size=1, max_size=3)).filter(
+                     st.sampled_from([False, False, False, False, True]), st.lists(conn, min_size=1, max_size=3),
+                     st.one_of(st.none(), st.none(), st.fixed_dictionaries({"at": st.integers(1, 60),
+                                                                            "tyme": st.sampled_from([0.0, 1000.0, 5.0])}))).filter(
         lambda c: (c["tymeout"] if c["tymeout"] is not None else 1.0) / c["tock"] <= 160)
 
 
